@@ -183,6 +183,11 @@ def shard_main(args):
                     st.known_first.setdefault(fid, enc(case))
                     return
                 st.last_failure = (case, res)
+                if os.environ.get("VERIF_COLLECT"):
+                    b = str(res.get("bucket") or res["what"][:60])
+                    st.known["collect:" + b] += 1
+                    st.known_first.setdefault("collect:" + b, res["what"])
+                    return
                 raise PropertyViolation(res["what"])
 
         # finite enumeration part
@@ -426,6 +431,10 @@ def main(argv=None):
         print(f"  classes: {top}")
     for line in known_lines:
         print(line)
+    if os.environ.get("VERIF_COLLECT"):
+        for k, v in sorted(known_hits.items(), key=lambda kv: -kv[1]):
+            if k.startswith("collect:"):
+                print(f"  BUCKET {v:5d} {k[8:]}\n        e.g. {total.known_first.get(k)}"[:900])
     if errors:
         print(errors[0])
         print(f"HARNESS-ERROR property={pid} ({len(errors)} shard(s))")
